@@ -36,24 +36,27 @@ Proof.
   - eapply emit_pn; eauto.
   - inversion H; subst. constructor; [|constructor]. simpl in Hwf. unfold pn. destruct w; simpl in *; try discriminate; reflexivity.
 Qed.
-Lemma bsteps_pn order acts : forall b b' e,
-  Forall wf_act acts -> bsteps b order acts = (b', e) -> Forall (fun ev => pn (snd ev)) e.
+Lemma pn_stamp t w : pn w -> pn (stamp t w).
+Proof. unfold pn. destruct w; simpl; auto. Qed.
+Lemma bsteps_pn tabs order acts : forall b b' e,
+  Forall wf_act acts -> bsteps tabs b order acts = (b', e) -> Forall (fun ev => pn (snd ev)) e.
 Proof.
   induction acts as [|a t IH]; intros b b' e Hwf H; simpl in H.
   - inversion H. constructor.
-  - destruct (bstep b order a) as [b1 e1] eqn:E1. destruct (bsteps b1 order t) as [b2 e2] eqn:E2.
+  - destruct (bstep tabs b order a) as [b1 e1] eqn:E1. destruct (bsteps tabs b1 order t) as [b2 e2] eqn:E2.
     inversion H; subst. inversion Hwf; subst. apply Forall_app. split; [|eapply IH; eauto].
     unfold bstep in E1. destruct (flow_act (getf b (act_side a)) order a) as [x' ws] eqn:F.
     inversion E1; subst. apply (flow_act_pn _ _ _ _ _ H2) in F. unfold tag.
     apply Forall_forall. intros ev Hev. apply in_map_iff in Hev. destruct Hev as (w & <- & Hw).
-    simpl. rewrite Forall_forall in F. auto.
+    apply in_map_iff in Hw. destruct Hw as (w0 & <- & Hw0).
+    simpl. apply pn_stamp. rewrite Forall_forall in F. auto.
 Qed.
 Lemma run_pn ls : forall st st' o, run st ls = (st', o) -> Forall (fun ev => pn (snd ev)) (concat o).
 Proof.
   induction ls as [|l t IH]; intros st st' o H; simpl in H.
   - inversion H. constructor.
   - unfold step in H. destruct (front (sf st) (l_from l) (l_frame l)) as [[f' acts]|] eqn:F; [|inversion H; constructor].
-    destruct (bsteps (sb st) (l_order l) acts) as [b' e] eqn:B.
+    destruct (bsteps (f_tab f') (sb st) (l_order l) acts) as [b' e] eqn:B.
     destruct (run (mkS f' b') t) as [st2 r] eqn:R. inversion H; subst. simpl.
     apply Forall_app. split; [|eapply IH; eauto].
     destruct (front_ledger _ _ _ _ _ F) as (W & _). eapply bsteps_pn; eauto.
